@@ -95,6 +95,27 @@ func child(seed int64, tier string, from, to, only, conc int, outPath, progPath,
 			continue
 		}
 		i := i
+		if i%10 == 7 {
+			// a crowd scenario (crowd.go) takes the place of every tenth topology scenario
+			wg.Add(1)
+			go func() {
+				defer wg.Done()
+				sl.acquire()
+				defer sl.release()
+				pmu.Lock()
+				fmt.Fprintf(pf, "START %d\n", i)
+				pmu.Unlock()
+				cr := crowdScenario(root.Derive("crowd", i), i)
+				b, _ := json.Marshal(map[string]interface{}{"crowd": cr})
+				pmu.Lock()
+				w.Write(b)
+				w.WriteByte('\n')
+				w.Flush()
+				fmt.Fprintf(pf, "DONE %d\n", i)
+				pmu.Unlock()
+			}()
+			continue
+		}
 		sc := genScen(root, i, tier == "thorough")
 		wg.Add(1)
 		go func() {
@@ -331,6 +352,26 @@ func main() {
 				map[string]interface{}{"exit": res.ExitCode, "signal": res.Signal, "last_started_scenario": last, "scenarios_running": open, "fatal": fatal})
 		}
 		for _, l := range vh.ReadLines(out) {
+			if strings.HasPrefix(l, `{"crowd":`) {
+				var x struct {
+					Crowd *CrowdRec `json:"crowd"`
+				}
+				if json.Unmarshal([]byte(l), &x) == nil && x.Crowd != nil {
+					cr := x.Crowd
+					if cr.NotJudged != "" {
+						run.Drop("crowd scenario not judged: " + cr.NotJudged)
+						continue
+					}
+					run.Count("crowd_scenarios", 1)
+					run.Count("crowd_deliveries_to_staying_collectors", cr.Deliveries)
+					run.Count("crowd_subscribe_unsubscribe_pairs", cr.ChurnOps)
+					for k, kind := range cr.Kinds {
+						run.Violate(cr.Idx, kind, map[string]string{"slow_collectors": fmt.Sprint(cr.SlowMs > 0)}, map[string]interface{}{"scenario": cr, "note": cr.Notes[k]})
+					}
+					run.Case(vh.HashS(fmt.Sprintf("crowd-%d-%d-%d-%d", cr.Idx, cr.Collectors, cr.SlowMs, cr.Churners)), true)
+				}
+				continue
+			}
 			if strings.HasPrefix(l, `{"residue":`) {
 				var x struct {
 					Residue *Residue `json:"residue"`
